@@ -62,6 +62,8 @@ struct Prob
   shared_ptr<ProjDataInMemory> y, additive, normfac1, normfac2;
   bool tof = false, sym = true, zero_end = false, subset_sens = true, use_prior = false, additive_on = false;
   int norm_kind = 0, max_seg = 0, num_subsets = 1, sens_mode = 0;
+  int max_tof = 1 << 20;     // the TOF range the object says it processes (get_max_timing_pos_num_to_process after set_up)
+  int max_tof_request = -1;  // what a history asked for (-1: never asked)
   double beta = 0;
   std::vector<int> legal_subsets;
   std::vector<Row> rows, rows_sens; // rows of the data geometry; rows used by the sensitivity (non-TOF geometry for TOF data)
@@ -114,7 +116,8 @@ apply_config(Prob& pr)
         const int s = row.bin.segment_num(), a = row.bin.axial_pos_num();
         const ProjDataInfo& pdi = rows == &pr.rows ? *pr.pdi : *pr.pdi_sens;
         row.used = std::abs(s) <= pr.max_seg
-                   && !(pr.zero_end && s == 0 && (a == pdi.get_min_axial_pos_num(0) || a == pdi.get_max_axial_pos_num(0)));
+                   && !(pr.zero_end && s == 0 && (a == pdi.get_min_axial_pos_num(0) || a == pdi.get_max_axial_pos_num(0)))
+                   && (rows != &pr.rows || std::abs(row.bin.timing_pos_num()) <= pr.max_tof);
       }
 }
 
@@ -124,7 +127,7 @@ make_prob(const Plan& p)
   Prob pr;
   const int ndet = (int)p.c("ndet", 16), nrings = (int)p.c("nrings", 2);
   pr.tof = p.c("tof", 0) != 0;
-  pr.scanner = vu::make_scanner(ndet, nrings, pr.tof ? 3 : 0, 1.25f * ndet, 4.f, 4.f);
+  pr.scanner = vu::make_scanner(ndet, nrings, pr.tof ? (p.c("tof_bins", 3) >= 5 ? 5 : 3) : 0, 1.25f * ndet, 4.f, 4.f);
   pr.pdi = vu::make_pdi(pr.scanner, 1, nrings - 1, ndet / 2, ndet / 2, false, pr.tof ? 1 : 0);
   pr.pdi_sens = pr.tof ? shared_ptr<ProjDataInfo>(pr.pdi->create_non_tof_clone()) : pr.pdi;
   pr.exam = vu::make_exam_info();
@@ -600,6 +603,13 @@ run_seq(const Plan& p, sim::Result& res)
               apply_config(pr);
               H->set_zero_seg0_end_planes(pr.zero_end);
             }
+          else if (op.kind == "cfg_max_tof")
+            {
+              // the TOF range: whatever the object reports as its range after set_up is the range all four quantities must use
+              pr.max_tof_request = (int)(op.arg(0) % (pr.pdi->get_max_tof_pos_num() + 1));
+              H->set_max_timing_pos_num_to_process(pr.max_tof_request);
+              sim::probe("tof_range_requested");
+            }
           else
             {
               pr.max_seg = (int)(op.arg(0) % (pr.pdi->get_max_segment_num() + 1));
@@ -608,6 +618,14 @@ run_seq(const Plan& p, sim::Result& res)
             }
           if (H->set_up(pr.lambda) != Succeeded::yes)
             sim::fail("set_up_failed", "set_up after %s reports failure", op.kind.c_str());
+          if (op.kind == "cfg_max_tof")
+            {
+              pr.max_tof = H->get_max_timing_pos_num_to_process();
+              apply_config(pr);
+              sim::logf("tof range in use %d (asked %d)", pr.max_tof, pr.max_tof_request);
+              if (pr.max_tof < pr.pdi->get_max_tof_pos_num())
+                sim::probe("tof_range_restricted_by_the_object");
+            }
           first.clear();
           sim::probe("model_changed_on_same_object");
           continue;
@@ -720,6 +738,7 @@ gen(uint64_t seed, const std::string& tier, long idx)
   p.cfg["nrings"] = r.range(1, 3);
   p.cfg["xy"] = 2 * r.range(2, 4) + 1;
   p.cfg["tof"] = r.chance(0.3);
+  p.cfg["tof_bins"] = 3; // overwritten at the end of the draws (keeps the earlier draws of a seed as they were)
   p.cfg["sym"] = r.chance(0.6);
   p.cfg["additive"] = r.chance(0.5);
   p.cfg["norm"] = r.range(0, 2);
@@ -743,14 +762,15 @@ gen(uint64_t seed, const std::string& tier, long idx)
         o.kind = "subsets";
       else if (k < 23)
         {
-          static const char* cfgs[] = { "cfg_norm", "cfg_additive", "cfg_zero_end", "cfg_max_seg" };
-          o.kind = cfgs[r.below(4)];
+          static const char* cfgs[] = { "cfg_norm", "cfg_additive", "cfg_zero_end", "cfg_max_seg", "cfg_max_tof" };
+          o.kind = cfgs[r.below(5)];
         }
       else
         o.kind = kinds[r.below(sizeof kinds / sizeof *kinds)];
       o.a.push_back((long)r.below(1000));
       p.ops.push_back(o);
     }
+  p.cfg["tof_bins"] = r.chance(0.4) ? 5 : 3; // five TOF bins: a TOF range strictly between 0 and the maximum exists
 #endif
   return p;
 }
